@@ -16,17 +16,21 @@ def leaveModel : MStmt :=
   (.seq (.ite (.bin .lt (.un .postDec (.fld .count)) (.lit 0)) (.expr (.bin .assign (.fld .count) (.lit 0))) .skip)
         (.expr (.call1 .unlock (.un .addr (.fld .mutex))))))) (.lit 0))
 
-/-- the polling loop of `Q_MUTEX_ENTER`: `for (i = 0; (_ret = trylock) != 0 && i < 5000; i++) { usleep(1); }` -/
+/-- the polling loop of `Q_MUTEX_ENTER` in NORMAL FORM (translator/mutexmacros.py: `for (init; c; step) b`
+    = `init; while (c) { b; step; }`, `T x = e;` = `T x; x = e;`, sequences flattened):
+    `i = 0; while ((_ret = trylock) != 0 && i < 5000) { if (i == 0) {} usleep(1); i++; }` -/
 def pollCond : MExpr :=
   .bin .and (.bin .ne (.bin .assign (.var 0) (.call1 .trylock (.un .addr (.fld .mutex)))) (.lit 0))
             (.bin .lt (.var 1) (.lit 5000))
-def pollBody : MStmt := .seq (.ite (.bin .eq (.var 1) (.lit 0)) .skip .skip) (.expr (.call1 .usleep (.lit 1)))
-def pollLoop : MStmt := .forS (.expr (.bin .assign (.var 1) (.lit 0))) pollCond (.expr (.un .postInc (.var 1))) pollBody
+def pollStep : MStmt :=
+  .seq (.ite (.bin .eq (.var 1) (.lit 0)) .skip .skip) (.seq (.expr (.call1 .usleep (.lit 1))) (.expr (.un .postInc (.var 1))))
+def pollLoop : MStmt := .whileS pollCond pollStep
 
-/-- one round of the outer `while (true)`: poll; `if (_ret == 0) break;` forced `Q_MUTEX_LEAVE(m)` -/
+/-- one round of the outer `while (true)`: `int _ret, i; i = 0;` poll; `if (_ret == 0) break;` forced
+    `Q_MUTEX_LEAVE(m)` -/
 def roundBody : MStmt :=
-  .seq (.seq (.decl 0) (.decl 1))
-    (.seq pollLoop (.seq (.ite (.bin .eq (.var 0) (.lit 0)) .brk .skip) leaveModel))
+  .seq (.decl 0) (.seq (.decl 1) (.seq (.expr (.bin .assign (.var 1) (.lit 0)))
+    (.seq pollLoop (.seq (.ite (.bin .eq (.var 0) (.lit 0)) .brk .skip) leaveModel))))
 
 /-- `Q_MUTEX_ENTER(m)` -/
 def enterModel : MStmt :=
@@ -371,9 +375,9 @@ theorem inv_setvars {t d k : Nat} {e : Int} {vs : Nat → Int} {a u : Nat} {s : 
 def InvR (t d k : Nat) (e : Int) (a u : Nat) (p : Int → Prop) (s : MSt) : Prop :=
   ∃ vs, Inv t d k e vs a u s ∧ p (vs 0)
 
-/-- `i = 0` / `i++` / `{ if (i == 0) {} usleep(1); }`: only the loop counter (local 1) changes -/
+/-- `i = 0;` and `{ if (i == 0) {} usleep(1); i++; }`: only the loop counter (local 1) changes -/
 theorem sh_poll_locals {t d k : Nat} {e : Int} {a u : Nat} {p : Int → Prop} (st : MStmt)
-    (hst : st = .expr (.bin .assign (.var 1) (.lit 0)) ∨ st = .expr (.un .postInc (.var 1)) ∨ st = pollBody) :
+    (hst : st = .expr (.bin .assign (.var 1) (.lit 0)) ∨ st = pollStep) :
     SHoare t (InvR t d k e a u p) st (fun o s => o = .normal ∧ InvR t d k e a u p s) := by
   intro fuel s o s' hp h
   have key : ∀ (x : Int), InvR t d k e a u p { s with vars := setVar s.vars 1 x } := by
@@ -382,13 +386,11 @@ theorem sh_poll_locals {t d k : Nat} {e : Int} {a u : Nat} {p : Int → Prop} (s
     refine ⟨_, inv_setvars _ hi, ?_⟩
     obtain ⟨_, _, _, _, _, hvs, _⟩ := hi
     simpa [setVar, hvs] using hv
-  rcases hst with rfl | rfl | rfl
+  rcases hst with rfl | rfl
   · simp [exec, evalE] at h; obtain ⟨rfl, rfl⟩ := h; exact ⟨rfl, key 0⟩
-  · simp [exec, evalE] at h; obtain ⟨rfl, rfl⟩ := h; exact ⟨rfl, key _⟩
-  · unfold pollBody at h
+  · unfold pollStep at h
     simp [exec, evalE] at h
-    obtain ⟨rfl, rfl⟩ := h; exact ⟨rfl, hp⟩
-
+    obtain ⟨rfl, rfl⟩ := h; exact ⟨rfl, key _⟩
 
 theorem shoare_exists {t : Nat} {α : Type} {P : α → MSt → Prop} {st : MStmt} {Q : Outcome → MSt → Prop}
     (h : ∀ x, SHoare t (P x) st Q) : SHoare t (fun s => ∃ x, P x s) st Q :=
@@ -402,18 +404,13 @@ def PollDone (t d : Nat) (e : Int) (a u : Nat) (s : MSt) : Prop :=
 theorem pollLoop_spec {t d : Nat} {e : Int} {a u : Nat} :
     SHoare t (InvR t d 0 e a u (fun _ => True)) pollLoop (fun o s => o = .normal ∧ PollDone t d e a u s) := by
   unfold pollLoop
-  refine shoare_for (I := InvR t d 0 e a u (fun _ => True)) (sh_poll_locals _ (Or.inl rfl)) (fun o s h => h.2) ?_
   refine shoare_while (R := PollPost t d e a u) (Qb := fun o s => o = .normal ∧ InvR t d 1 e a u (· ≠ 0) s)
     (fun s v s' ⟨vs, h, _⟩ he => eh_pollCond s v s' ⟨vs, h⟩ he) ?_ ?_ ?_ ?_
-  · -- body; increment
-    refine shoare_conseq (P' := InvR t d 1 e a u (· ≠ 0)) ?_ ?_ (fun o s h => h)
-    · refine shoare_seq (Qa := fun o s => o = .normal ∧ InvR t d 1 e a u (· ≠ 0) s) (sh_poll_locals _ (Or.inr (Or.inr rfl)))
-        ?_ (fun s h => by cases h.1)
-      exact shoare_conseq (sh_poll_locals _ (Or.inr (Or.inl rfl))) (fun s h => h.2) (fun o s h => h)
-    · intro s ⟨v, hv, h⟩
-      rcases h with ⟨h0, _⟩ | h
-      · exact absurd h0 hv
-      · exact h
+  · refine shoare_conseq (P' := InvR t d 1 e a u (· ≠ 0)) (sh_poll_locals _ (Or.inr rfl)) ?_ (fun o s h => h)
+    intro s ⟨v, hv, h⟩
+    rcases h with ⟨h0, _⟩ | h
+    · exact absurd h0 hv
+    · exact h
   · intro s ⟨_, vs, h, _⟩; exact ⟨vs, inv_weaken h, trivial⟩
   · intro s h; cases h.1
   · intro s h
@@ -429,9 +426,12 @@ theorem roundBody_spec {t d : Nat} {e : Int} {a : Nat} :
                   (o = .normal ∧ ∃ u, InvR t d 0 e a u (fun _ => True) s)) := by
   refine shoare_exists fun u => ?_
   unfold roundBody
-  refine shoare_seq (Qa := fun o s => o = .normal ∧ InvR t d 0 e a u (fun _ => True) s) ?_ ?_ (fun s h => by cases h.1)
-  · refine shoare_seq (Qa := fun o s => o = .normal ∧ InvR t d 0 e a u (fun _ => True) s) shoare_decl ?_ (fun s h => by cases h.1)
-    exact shoare_conseq shoare_decl (fun s h => h.2) (fun o s h => h)
+  refine shoare_seq (Qa := fun o s => o = .normal ∧ InvR t d 0 e a u (fun _ => True) s) shoare_decl ?_ (fun s h => by cases h.1)
+  refine shoare_conseq (P' := InvR t d 0 e a u (fun _ => True)) ?_ (fun s h => h.2) (fun o s h => h)
+  refine shoare_seq (Qa := fun o s => o = .normal ∧ InvR t d 0 e a u (fun _ => True) s) shoare_decl ?_ (fun s h => by cases h.1)
+  refine shoare_conseq (P' := InvR t d 0 e a u (fun _ => True)) ?_ (fun s h => h.2) (fun o s h => h)
+  refine shoare_seq (Qa := fun o s => o = .normal ∧ InvR t d 0 e a u (fun _ => True) s) (sh_poll_locals _ (Or.inl rfl)) ?_
+    (fun s h => by cases h.1)
   refine shoare_conseq (P' := InvR t d 0 e a u (fun _ => True)) ?_ (fun s h => h.2) (fun o s h => h)
   refine shoare_seq (Qa := fun o s => o = .normal ∧ PollDone t d e a u s) pollLoop_spec ?_ (fun s h => by cases h.1)
   refine shoare_conseq (P' := PollDone t d e a u) ?_ (fun s h => h.2) (fun o s h => h)
